@@ -72,7 +72,7 @@ def main(tier, replay):
         "(smoothing 1/4,1/2,1/4 or sharpening -1/8,5/4,-1/8 in x and y) as inter-iteration filter (interval 1 or 2) and/or post filter; every "
         "run has at least one case of each kind.  The explicit system matrix (one row per bin and TOF bin, normalisation factor, zeroed flag, "
         "subset), the non-TOF sensitivity rows, data, prior weights are given to the Lean model, which recomputes in exact rationals: D0 = "
-        "-H(1) (data y n^2, end planes of segment 0 included as in the code), sensitivity-zero mask, refusal of unbalanced subsets, image "
+        "-H(1) (data y n^2, end planes of segment 0 left out with zero_seg0_end_planes as in the repaired code), sensitivity-zero mask, refusal of unbalanced subsets, image "
         "after set_up, every penalised sub-gradient (y/(Px+a) - 1/n, zeroed bins dropped) and surrogate curvature update_estimate obtained "
         "(`grad`, `curv`), every sub-iteration (`step`: before, gradient and curvature as returned by the real objects -> after, subset used; "
         "with a randomised order the subset is the implementation's) and what end_of_iteration_processing makes of it (`endit`: filters by "
@@ -90,7 +90,7 @@ def main(tier, replay):
         "after filtering: known finding bounds:sharpening-filter-applied-after-clamp, Lean: C08_in_bounds_fails_after_sharpening_filter); "
         "D0 >= 0, bitwise equal to "
         "-add_multiplication_with_approximate_Hessian_without_penalty(ones) and equal to sum_b P_bj (P1)_b/(n_b^2 y_b) over the bins of the "
-        "objective function (fails with zero_seg0_end_planes: known finding denominator:includes-zeroed-seg0-end-planes); gradient equal "
+        "objective function (zeroed end planes of segment 0 excluded; the former finding denominator:includes-zeroed-seg0-end-planes is fixed in the tree); gradient equal "
         "to the definition sum_{b in S} P_bj (y_b/(Px+a)_b - 1/n_b) - prior, taken at the current image for the scheduled subset (randomised "
         "order: every complete full iteration uses a permutation of the subsets); ascent direction (D > 0); one zeta for all voxels, "
         "recovered from unclamped voxels, equal to alpha/(1+gamma n) with n the full-iteration number; full formula per voxel; saved files "
@@ -124,11 +124,41 @@ def main(tier, replay):
         "file is the additive update before the clamp); each through the whole single-run programme (uninterrupted, second reconstruct() "
         "without set_up, resumed by parameter file with `start at subiteration number`, `initial estimate := <saved iterate>`, "
         "`precomputed denominator := <file>`, refused denominator files) and compared bitwise with the same configuration made through "
-        "the setters; plus 2 histories on a parsed object.  Without filters the iterate handed out equals the image update_estimate left.",
+        "the setters; plus 2 histories on a parsed object.  Without filters the iterate handed out equals the image update_estimate left.  "
+        "ROUND 4.  (a) RESTRICTED SEGMENT / TOF RANGE: the objective function restricted to fewer segments than the data have "
+        "(set_max_segment_num_to_process; in parameter files `maximum absolute segment number to process`; 3 generated geometries always "
+        "have more than one segment) and, for TOF data, to fewer TOF bins (set_max_timing_pos_num_to_process; with `use time-of-flight "
+        "sensitivities` off the code switches it on, as the model does) — forced cases without prior, with quadratic prior, TOF with and "
+        "without TOF sensitivities, TOF + segments, plus random ones (1 in 3), values equal to the data's maximum, changed between the "
+        "runs of a history (all -> restricted -> other range with new data, scripted + random), and ranges larger than the data's "
+        "(refused).  EVERY bin of the data is given to the model (`row` carries segment and TOF bin); the model (Problem.processed) leaves "
+        "the bins outside the range out of D0 = -H(1), sub-gradient, sensitivity mask, subset balancing alike, as every loop of the code "
+        "does; compared as before (setup: D0; grad; sens0; step; refusal), for single runs, resumed runs, histories, parameter files.  "
+        "Oracle: D0 equals sum_b P_bj (P1)_b/(n_b^2 y_b) over the bins INSIDE the range and the gradient its definition over the bins of "
+        "the subset inside the range (textbook definitions from the explicit matrix, double precision) — D belongs to the same Phi as the "
+        "gradient.  (b) D EXACTLY 0 BEFORE IT IS MADE POSITIVE, PRIOR PRESENT: kappa images that are 0 in every voxel no bin of the "
+        "objective function sees (geometry 0 always has corner voxels outside the FOV; kappa_kind 1) and additionally in random seen "
+        "voxels (kind 2), also through a kappa file; user weights that are all 0 with a non-zero penalisation factor; with QuadraticPrior, "
+        "the image dependent test double, and LogcoshPrior (the library's only other PriorWithParabolicSurrogate; RelativeDifferencePrior "
+        "is not one and is refused by set_up: malformed stream).  Counted per run: voxels with D0 + 2 curvature == 0.  `step` compares every "
+        "iterate with the model, which thresholds AFTER adding the penalty curvature (Model.workDenominator) as the code does; a NaN / inf "
+        "never compares equal.  Oracle, all NaN-aware (`!(v >= 0 && v <= ub)`, `!(d*g >= 0)`): every iterate (after update_estimate and "
+        "after end_of_iteration_processing), gradient and curvature finite; a voxel whose gradient component is exactly 0 keeps its clamped "
+        "value bitwise (finite update zeta N 0 / D = 0: D strictly positive and finite); saved iterates equal the in-memory ones.  "
+        "(c) LogcoshPrior (scalar 0.25..3, default 3D / 2D / user weights, kappa): gradient beta sum w kappa kappa tanh(s d)/s and "
+        "curvature beta sum w kappa kappa tanh(s d)/(s d) checked against their definitions (double, rel 1e-4), all formula / relaxation / "
+        "bounds clauses with D = D0 + 2 curvature(first image of the run) as the code has it (the prior declares its curvature image "
+        "independent); `step` correspondence with gradient and curvature as data (Problem.opaquePrior); resumed runs are run and compared "
+        "with the model but not required to reproduce the uninterrupted run (the property's restart clause is for no / quadratic prior).  "
+        "(d) kappa differing from voxel to voxel and plane to plane with the default 3D neighbourhood on 3-5 plane images and user 3x3x3 "
+        "weights combined with kappa are forced cases of every run (curvature and gradient: model `curv` / `grad` + definition oracle).",
         extra=dict(harness_counts=info))
     chk.assumptions += ["float rounding is modelled only through the forward error bounds above (the model is exact rational arithmetic)",
                         "normalisation only through BinNormalisationFromProjData (factor per bin, independent of the TOF bin; other normalisation classes: C05/C13); "
-                        "no max_segment_num_to_process restriction, no MPI, single thread",
+                        "segment / TOF ranges are symmetric (-m..m) as the API has them; within a history only the segment range is changed, not the TOF range (a restricted "
+                        "TOF range switches use_tofsens on in the object for good); no MPI, single thread",
+                        "LogcoshPrior: tanh is not in the Lean model (gradient / curvature are data for `step`, checked by the double precision oracle only); that it declares "
+                        "its surrogate curvature independent of the image although it is not is outside the property's quantifier (quadratic prior) and only reported",
                         "randomise_subset_order: rand() is re-seeded by the harness after set_up (set_up seeds it from the clock); the permutation itself is not modelled, "
                         "the subset used is taken from the implementation and resumed runs are not expected to reproduce a randomised run",
                         "filters: only SeparableConvolutionImageFilter with 3 taps in x and y; other image processors (median, Metz, chained) are covered only by the "
